@@ -1069,6 +1069,9 @@ class Analyzer:
                 r = self.methods_named(c, m)
                 if r:
                     return r
+            if isinstance(v, ast.Name) and not self.is_local(f, v.id) and v.id not in f.mod.imports \
+                    and v.id not in f.mod.funcs and v.id not in db.classes and self.name_site(f, v.id) is None:
+                return []       # a builtin (ValueError.__init__, str.join, ...)
             # by name
             for g in db.by_name.get(m, []):
                 if getattr(g, "is_method", False) or (g.parent is None and g.kind == "func"):
@@ -1154,6 +1157,92 @@ def dedup(l):
         if x not in out:
             out.append(x)
     return out
+
+
+def prescan_dynamic(an):
+    """state created or rebound at run time: Class.x = v, cls.x = v, type(self).x = v, module.x = v,
+    `global x` without a module-level binding, setattr(Class, name, v)"""
+    db = an.db
+    new = {}
+    for f in db.funcs:
+        if f.mod.ext:
+            continue
+        meth = an.enclosing_method(f)
+        for n in an.own[f]:
+            if isinstance(n, ast.Attribute) and isinstance(n.ctx, (ast.Store, ast.Del)):
+                v = n.value
+                tgt = None
+                if isinstance(v, ast.Name) and meth is not None and "classmethod" in meth.decos \
+                        and meth.params and v.id == meth.params[0]:
+                    tgt = ("class", meth.cls)
+                elif isinstance(v, ast.Call) and dotted(v.func) == "type":
+                    tgt = ("class", meth.cls if meth is not None else None)
+                elif isinstance(v, ast.Attribute) and v.attr == "__class__":
+                    tgt = ("class", meth.cls if meth is not None else None)
+                else:
+                    c = an.resolve_class(f, v)
+                    if c is not None:
+                        tgt = ("class", c)
+                    else:
+                        d = dotted(v)
+                        mm = an.resolve_module(f.mod, d) if d else None
+                        if mm is not None:
+                            tgt = ("module", mm)
+                if tgt is None:
+                    continue
+                if an.attr_site(f, n):
+                    continue
+                if tgt[0] == "class":
+                    c = tgt[1]
+                    cname = c.name if c is not None else "?"
+                    key = ("c", cname, n.attr)
+                    if key not in new:
+                        s = Site("KClassAttr", f"{(c.mod.rel if c else f.mod.rel)}:{cname}.{n.attr}",
+                                 Shape("opaque", True, Shape("opaque", True)), c.mod if c else f.mod, cls=c,
+                                 attr=n.attr, lineno=n.lineno)
+                        s.extra["dynamic"] = True
+                        new[key] = s
+                        if c is not None:
+                            c.site_scope[n.attr] = s
+                        an.attr_sites.setdefault(n.attr, []).append(s)
+                        an.sites.append(s)
+                else:
+                    mm = tgt[1]
+                    key = ("m", mm.name, n.attr)
+                    if key not in new and not mm.ext:
+                        s = Site("KModGlobal", f"{mm.rel}:{n.attr}", Shape("opaque", True, Shape("opaque", True)),
+                                 mm, attr=n.attr, lineno=n.lineno)
+                        s.extra["dynamic"] = True
+                        new[key] = s
+                        mm.site_scope[n.attr] = s
+                        an.sites.append(s)
+            elif isinstance(n, ast.Name) and isinstance(n.ctx, (ast.Store, ast.Del)) and n.id in f.globals_decl:
+                mm = f.mod
+                if n.id not in mm.site_scope:
+                    s = Site("KModGlobal", f"{mm.rel}:{n.id}", Shape("opaque", True, Shape("opaque", True)), mm,
+                             attr=n.id, lineno=n.lineno)
+                    s.extra["dynamic"] = True
+                    mm.site_scope[n.id] = s
+                    an.sites.append(s)
+            elif isinstance(n, ast.Call) and dotted(n.func) in ("setattr", "delattr") and n.args:
+                v = n.args[0]
+                c = an.resolve_class(f, v)
+                is_cls = isinstance(v, ast.Name) and meth is not None and "classmethod" in meth.decos \
+                    and meth.params and v.id == meth.params[0]
+                d = dotted(v)
+                mm = an.resolve_module(f.mod, d) if d else None
+                if c is None and not is_cls and mm is None:
+                    continue           # setattr(self, ...) / setattr(obj, ...): heap objects
+                cname = c.name if c is not None else (meth.cls.name if is_cls else mm.rel)
+                key = ("s", cname)
+                if key not in new:
+                    s = Site("KClassAttr", f"{f.mod.rel}:{cname}.<setattr>", Shape("opaque", True), f.mod, cls=c,
+                             attr="<setattr>", lineno=n.lineno)
+                    s.extra["dynamic"] = True
+                    new[key] = s
+                    an.sites.append(s)
+                new[key].acc.append((f, "W", n.lineno))
+                an.node_acc.setdefault(id(n), []).append((new[key], "W"))
 
 
 # ----------------------------------------------------------------------------------------------
@@ -1364,7 +1453,7 @@ def collect_closures(an, rec):
                     live = True
             s = Site("KClosure", f"{owner.qual}.<cell {v}>@{name}", Shape("cell", False), mod, attr=v,
                      owner=owner, lineno=ln)
-            s.extra.update(app=name, init=init_txt, guard=guard, live_write=live,
+            s.extra.update(app=name, init=init_txt, init_node=init, guard=guard, live_write=live,
                            writers=[g.qual for g in writers])
             an.sites.append(s)
             for g in writers:
@@ -1548,6 +1637,23 @@ class Summaries:
                         self.call_at[id(n)] = cs
                         lst.append((n, cs))
             self.calls[f] = lst
+        self.callers = {}
+        for f, lst in self.calls.items():
+            for _, cs in lst:
+                for g in cs:
+                    if g != "<dynamic>":
+                        self.callers.setdefault(g, set()).add(f)
+        # module-level functions used as values (callbacks)
+        an.func_value_use = {}
+        for f in self.db.funcs:
+            for n in an.own[f]:
+                if isinstance(n, ast.Name) and isinstance(n.ctx, ast.Load):
+                    p = an.parent(n)
+                    if isinstance(p, ast.Call) and p.func is n:
+                        continue
+                    g = f.mod.funcs.get(n.id)
+                    if g is not None and not an.is_local(f, n.id):
+                        an.func_value_use[g] = True
 
     def detect_swaps(self):
         """def m(self): ret = self.a; self.a = <fresh>; return ret"""
@@ -1767,8 +1873,27 @@ class Result:
     pass
 
 
-def is_import_time(f):
-    return f.kind in ("modbody", "classbody")
+def is_import_time(f, su=None, seen=None):
+    """module / class bodies, and functions that are only ever called from them"""
+    if f.kind in ("modbody", "classbody"):
+        return True
+    if su is None or f.kind != "func":
+        return False
+    seen = seen or set()
+    if f in seen:
+        return False
+    seen.add(f)
+    callers = su.callers.get(f, set())
+    if not callers:
+        return False
+    if f.name.startswith("__") and f.name.endswith("__"):
+        return False
+    if getattr(f, "is_method", False):
+        return False        # methods can be reached through attribute access from anywhere
+    # a module-level function that is referenced other than by a direct call may be called later
+    if su.an.func_value_use.get(f):
+        return False
+    return all(is_import_time(c, su, seen) for c in callers)
 
 
 def entry_kind(f):
@@ -1799,6 +1924,7 @@ def analyse(repo=None):
                    and f.mod.rel not in INTERNAL_FILES]
     an.setup_families()
     an.propagate_taint()
+    prescan_dynamic(an)
     collect(an)
     su = Summaries(an)
     su.closure(an._entries)
@@ -1807,8 +1933,8 @@ def analyse(repo=None):
     res.entries = an._entries
     rows = []
     for s in an.sites:
-        live_w = sorted({f.qual for f, k, _ in s.acc if k in WRITE_KINDS and not is_import_time(f)})
-        init_w = sorted({f.qual for f, k, _ in s.acc if k in WRITE_KINDS and is_import_time(f)})
+        live_w = sorted({f.qual for f, k, _ in s.acc if k in WRITE_KINDS and not is_import_time(f, su)})
+        init_w = sorted({f.qual for f, k, _ in s.acc if k in WRITE_KINDS and is_import_time(f, su)})
         readers = sorted({f.qual for f, k, _ in s.acc if k in READ_KINDS})
         ents = []
         status = None
@@ -1869,11 +1995,6 @@ def debug_print(res):
             print("      ", {k: v for k, v in s.extra.items()})
 
 
-if __name__ == "__main__":
-    r = analyse(sys.argv[1] if len(sys.argv) > 1 else None)
-    debug_print(r)
-
-
 def explain(res, fq, sname, depth=0, seen=None):
     """debug helper: why is the first access of function fq to site sname what it is"""
     su, an = res.su, res.an
@@ -1899,3 +2020,172 @@ def explain(res, fq, sname, depth=0, seen=None):
                     print("  " * depth + f"   line {n.lineno}: call {g.qual} -> {r}")
                     if r in ("dirty", "swap"):
                         explain(res, g.qual, sname, depth + 1, seen)
+
+
+# ----------------------------------------------------------------------------------------------
+# emission
+# ----------------------------------------------------------------------------------------------
+def cs(x):
+    return '"' + x.replace('"', '""') + '"'
+
+
+def clist(items, sep="; "):
+    return "[" + sep.join(items) + "]"
+
+
+FIRST = {"none": "FNone", "kill": "FKill", "dirty": "FDirty", "swap": "FDirty"}
+
+
+def types_of_decl(node, where):
+    """class names of a `types` declaration"""
+    def one(e):
+        if isinstance(e, ast.Name):
+            return e.id
+        if isinstance(e, ast.Attribute):
+            return e.attr
+        if isinstance(e, ast.Call) and dotted(e.func) == "type" and len(e.args) == 1 and \
+                isinstance(e.args[0], ast.Constant) and e.args[0].value is None:
+            return "NoneType"
+        raise TranslatorError(f"{where}: unrecognised types declaration {ast.unparse(e)}")
+    if node is None:
+        return []
+    if isinstance(node, ast.Tuple):
+        return [one(x) for x in node.elts]
+    if isinstance(node, ast.Call) and dotted(node.func) == "tuple" and not node.args:
+        return []
+    return [one(node)]
+
+
+def emit(res):
+    an, su, db = res.an, res.su, res.db
+    for i, r in enumerate(res.rows):
+        r.site.id = i
+    lines = []
+    w = lines.append
+    w("(* GENERATED by harness/translate_globals.py from the working tree of montepy (and sly) — do not edit. *)")
+    w("From Coq Require Import List String Bool ZArith.")
+    w("From MPV Require Import Model.Iso.")
+    w("Import ListNotations.")
+    w("Open Scope string_scope.")
+    w("")
+    entry_rows = {}       # entry qual -> [(site id, first, w)]
+    entry_kind_of = {}
+    site_rows = {}
+    for r in res.rows:
+        s = r.site
+        rows = []
+        if s.kind == "KClosure":
+            if s.extra["live_write"]:
+                rows = [("set:" + s.extra["app"], "FDirty", True)]
+        elif s.kind in ("KModGlobal", "KClassAttr", "KInstAttr") and r.live_w:
+            for e, sm, mw in r.entries:
+                if sm != "none" or mw:
+                    rows.append((e.qual, FIRST[sm], mw))
+                    entry_kind_of[e.qual] = entry_kind(e)
+        elif s.kind in ("KDefaultArg", "KCache", "KSingleton") and r.live_w:
+            for q in r.live_w:
+                rows.append((q, "FDirty", True))
+                entry_kind_of.setdefault(q, "EkCall")
+        site_rows[s.id] = rows
+        if not s.extra.get("ext") and s.kind != "KClosure":
+            for en, fi, mw in rows:
+                entry_rows.setdefault(en, []).append((s.id, fi, mw))
+    w("Definition sites : list site := [")
+    srows = []
+    for r in res.rows:
+        s = r.site
+        rows = site_rows[s.id]
+        srows.append(
+            "  mk_site %d %s %s %s %s\n    %s\n    %s\n    %s\n    %s" % (
+                s.id, cs(s.name), s.kind, "true" if s.extra.get("ext") else "false", r.status,
+                clist([cs(x) for x in r.live_w]), clist([cs(x) for x in r.init_w]),
+                clist([cs(x) for x in r.readers]),
+                clist(["(%s, %s, %s)" % (cs(a), b, "true" if c else "false") for a, b, c in rows])))
+    w(";\n".join(srows))
+    w("].")
+    w("")
+    # generated properties
+    props = []
+    for r in res.rows:
+        s = r.site
+        if s.kind == "KClosure" and s.extra.get("init_node") is not None and "make_prop" in s.owner.name:
+            app = s.extra["app"]
+            latching = bool(s.extra["live_write"])
+            tys = [] if latching else types_of_decl(s.extra["init_node"], app)
+            props.append((app, app.split(".")[0], latching, tys, s.id))
+    w("Definition entries : list entry := [")
+    erows = []
+    for en in sorted(entry_rows):
+        erows.append("  mk_entry %s %s %s" % (cs(en), entry_kind_of.get(en, "EkCall"),
+                     clist(["(%d, %s, %s)" % (a, b, "true" if c else "false") for a, b, c in sorted(entry_rows[en])])))
+    for app, owner, latching, tys, sid in props:
+        erows.append("  mk_entry %s EkGenSet %s" % (cs("set:" + app), "[(%d, FDirty, true)]" % sid if latching else "[]"))
+    w(";\n".join(erows))
+    w("].")
+    w("")
+    w("Definition props : list gprop := [")
+    w(";\n".join("  mk_gprop %s %s %s %s (Some %d)" % (cs(a), cs(o), "true" if l else "false",
+                                                       clist([cs(t) for t in tys]), sid)
+                 for a, o, l, tys, sid in props))
+    w("].")
+    w("")
+    w("Definition classes : list (string * list string) := [")
+    crows = [("bool", ["int"]), ("int", []), ("float", []), ("str", []), ("NoneType", []), ("tuple", []), ("list", [])]
+    for name in sorted(db.classes):
+        c = db.classes[name]
+        crows.append((name, db.ancestors_names(c)))
+    w(";\n".join("  (%s, %s)" % (cs(a), clist([cs(x) for x in b])) for a, b in crows))
+    w("].")
+    w("")
+    w("Definition copy_hooks : list string := %s." % clist([cs(x) for x in res.copy_hooks]))
+    w("Definition weakref_users : list string := %s." % clist([cs(x) for x in res.weakrefs]))
+    w("Definition internal_files : list string := %s." % clist([cs(x) for x in sorted(INTERNAL_FILES)]))
+    w("")
+    # first accesses of internal functions on written own sites
+    frows = []
+    for r in res.rows:
+        s = r.site
+        if s.kind not in ("KModGlobal", "KClassAttr", "KInstAttr") or not r.live_w:
+            continue
+        E = [e for e in res.entries if s in su.may_r[e]]
+        F = [f for f in db.funcs if f.kind == "func" and s in su.may_r[f] and f not in res.entries]
+        fx = su.summarize_fix(F, s, E)
+        for f in F:
+            if fx[f] != "none":
+                frows.append("  (%s, %d, %s)" % (cs(f.qual), s.id, FIRST[fx[f]]))
+    w("Definition funcs : list (string * nat * first) := [")
+    w(";\n".join(frows))
+    w("].")
+    w("")
+    w("Definition table : Iso.table := mk_table sites entries props classes copy_hooks funcs.")
+    return "\n".join(lines) + "\n"
+
+
+def regenerate(repo=None):
+    try:
+        res = analyse(repo)
+        text = emit(res)
+    except Exception:
+        try:
+            os.remove(OUT)
+        except OSError:
+            pass
+        raise
+    try:
+        with open(OUT) as fh:
+            if fh.read() == text:
+                return res
+    except OSError:
+        pass
+    os.makedirs(os.path.dirname(OUT), exist_ok=True)
+    with open(OUT, "w") as fh:
+        fh.write(text)
+    return res
+
+
+if __name__ == "__main__":
+    if len(sys.argv) > 1 and sys.argv[1] == "--debug":
+        debug_print(analyse(sys.argv[2] if len(sys.argv) > 2 else None))
+    else:
+        regenerate(sys.argv[1] if len(sys.argv) > 1 else None)
+        print("wrote", OUT)
